@@ -23,9 +23,9 @@ func (hostile) Name() string     { return "hostile" }
 func (hostile) Level() string    { return "exploration" }
 func (hostile) Indices(tier string) int {
 	if tier == "thorough" {
-		return 600000
+		return 900000
 	}
-	return 40000
+	return 60000
 }
 func (hostile) Rule() string {
 	return "Per run index: a stored stream that the medium or its producer damaged — a valid seeded document (text or binary), or a " +
@@ -281,7 +281,10 @@ func damage(r *prng.Rand, out *render.Out, text bool) ([]byte, []string) {
 		if len(data) == 0 {
 			break
 		}
-		kind := r.Intn(10)
+		kind := r.Intn(12)
+		if kind >= 9 {
+			kind = 9
+		}
 		if kind >= 6 && !sitesUsable {
 			kind = r.Intn(6)
 		}
@@ -337,9 +340,12 @@ func damage(r *prng.Rand, out *render.Out, text bool) ([]byte, []string) {
 					s = lastKids[r.Intn(len(lastKids))]
 				}
 			}
-			delta := r.Range(1, 3)
-			if r.Chance(1, 3) {
-				delta = -delta
+			delta := 1
+			if r.Bool() {
+				delta = r.Range(1, 3)
+				if r.Chance(1, 3) {
+					delta = -delta
+				}
 			}
 			at := s.Off
 			var nb byte
